@@ -5,17 +5,18 @@
      touch s q r        = r with access := now, peer and agent := the request's
      slack c            = 0 (gob) or one second minus 1 ns (JSON) *)
 From Sessions Require Import Model.Base Model.Sess Model.Hist
-  Proofs.SessDefs Proofs.StartLaws Proofs.StartLaws2 Proofs.StartLaws3 Proofs.StartLaws4.
+  Proofs.SessDefs Proofs.StartLaws Proofs.StartLaws2 Proofs.StartLaws3 Proofs.StartLaws4
+  Proofs.StartLaws5.
 
 Theorem C03_stale_meaning :
   forall c r t, stale c r t = (c_expiry c <=? since (r_access r) t)%Z.
-Proof. reflexivity. Qed.
+Proof. exact stale_meaning. Qed.
 
 Theorem C03_start_valid_meaning :
   forall c r q t,
     start_valid c r q t =
     negb (stale c r t) && ip_ok (c_acceptip c) (r_ip r) (q_addr q) && ua_ok (c_acceptua c) (r_ua r) (q_ua q).
-Proof. reflexivity. Qed.
+Proof. exact start_valid_meaning. Qed.
 
 (* The presented ID resolves (cached or stored, reference record or not) to a
    record that has been idle for at least SessionExpiry. *)
@@ -29,11 +30,9 @@ Theorem C03_dead :
       no_session s q s' res nck /\
       lookup (cache s') k = None /\ lookup (store s') k = None /\
       (forall k', k' <> k -> k' <> KGen (supply s) -> Lc s' k' = Lc s k') /\
-      (store_norm s -> store_norm s').
-Proof.
-  intros s q k r Hp Hc Hn Hf Hq HL Hs.
-  exact (invalid_destroys s q k r Hp Hc Hn Hf Hq HL (stale_invalid _ _ _ _ Hs)).
-Qed.
+      (store_norm s -> store_norm s') /\
+      ok s' /\ conf s' = conf s.
+Proof. exact dead_destroys. Qed.
 
 (* SessionExpiry = 0: every session whose access time is not in the future *)
 Theorem C03_dead_expiry0 :
@@ -81,7 +80,7 @@ Theorem C03_live :
       (lookup (cache s) k = None -> c_maxcache (conf s) = 0%Z ->
          cache s' = cache s /\ store s' = store s /\ forall k', L s' k' = L s k') /\
       (forall k', k' <> k -> Lc s' k' = Lc s k') /\
-      plan s' = [] /\ conf s' = conf s.
+      ok s' /\ conf s' = conf s /\ now s' = now s.
 Proof. exact live_touch. Qed.
 
 (* the third hypothesis follows from the second for sane configurations *)
@@ -106,7 +105,7 @@ Proof. exact live_kept. Qed.
    times) is such a step: it is a flush sequence ... *)
 Theorem C03_compact_is_flush :
   forall s req, plan s = [] -> NoDup (map fst (cache s)) -> flush s (compact s req).
-Proof. intros s req Hp Hn. apply compact_flush; [exact Hp | apply nodup_cgood; exact Hn]. Qed.
+Proof. exact compact_flush_nodup. Qed.
 
 (* ... and flush sequences preserve the content modulo codec, access time included *)
 Theorem C03_flush_keeps :
@@ -130,6 +129,113 @@ Theorem C03_live_twice_partial :
                durable (codec (conf s) r2) = durable (codec (conf s) r).
 Proof. exact live_twice. Qed.
 
+
+(* ---- along a run ----
+   quiet k s s'   : the step from s to s' leaves the configuration and the
+                    logical content of k (modulo codec) alone and preserves ok
+   live_inv k d s rl : ok s, the content of k is (modulo codec) the record rl
+                    as the client's last accepted request left it, a
+                    non-reference record with durable part d
+   spaced c created tlast alast ulast l : for the requests l (instant, peer,
+                    agent, createIfNew) each gap (+ slack) is below
+                    SessionExpiry, each peer/agent passes the rules relative to
+                    the previous request's, no rotation falls due
+   always_served k d l s : whatever quiet steps precede each request of l, it
+                    returns the session under the same ID, without cookie, with
+                    durable part d *)
+
+Theorem C03_quiet_meaning :
+  forall k s s', quiet k s s' <-> conf s' = conf s /\ Lc s' k = Lc s k /\ (ok s -> ok s').
+Proof. exact quiet_meaning. Qed.
+
+Theorem C03_live_inv_meaning :
+  forall k d s rl,
+    live_inv k d s rl <->
+    ok s /\ Lc s k = Some (codec (conf s) rl) /\ durable (codec (conf s) rl) = d /\ r_ref rl = None.
+Proof. exact live_inv_meaning. Qed.
+
+Theorem C03_always_served_meaning :
+  forall k d x t s,
+    always_served k d (x :: t) s <->
+    forall s1, quiet k s s1 -> now s1 = a_time x ->
+      exists s' o ob,
+        start s1 (mkReq (CKey k) (a_create x) (a_addr x) (a_ua x)) = (s', Ok (Some o), []) /\
+        hget s' o = Some ob /\ o_id ob = k /\ durable (codec (conf s) (o_rec ob)) = d /\
+        always_served k d t s'.
+Proof. exact always_served_meaning. Qed.
+
+Theorem C03_spaced_meaning :
+  forall c created tlast alast ulast x t,
+    spaced c created tlast alast ulast (x :: t) <->
+    (a_time x - tlast + slack c < c_expiry c)%Z /\
+    ip_ok (c_acceptip c) alast (a_addr x) = true /\
+    ua_ok (c_acceptua c) ulast (a_ua x) = true /\
+    (c_idexpiry c <=? since created (a_time x))%Z = false /\
+    spaced c created (a_time x) (a_addr x) (a_ua x) t.
+Proof. exact spaced_meaning. Qed.
+
+(* A client that keeps presenting its ID at intervals shorter than
+   SessionExpiry is served every time, however often the session is evicted and
+   reloaded (and whatever else quiet happens) in between. Cache enabled. *)
+Theorem C03_live_run :
+  forall k d l s rl,
+    live_inv k d s rl ->
+    c_maxcache (conf s) <> 0%Z ->
+    (0 <= c_expiry (conf s))%Z -> (0 <= c_grace (conf s))%Z -> (c_idexpiry (conf s) <= max64)%Z ->
+    spaced (conf s) (created_of d) (r_access rl) (r_ip rl) (r_ua rl) l ->
+    always_served k d l s.
+Proof. exact live_run. Qed.
+
+Theorem C03_live_inv_init :
+  forall k s r, ok s -> L s k = Some r -> r_ref r = None -> live_inv k (durable (codec (conf s) r)) s r.
+Proof. exact live_inv_init. Qed.
+
+(* quiet steps: compaction, the clock, other clients' requests *)
+Theorem C03_quiet_compact : forall k s req, ok s -> quiet k s (compact s req).
+Proof. exact compact_quiet. Qed.
+
+Theorem C03_quiet_flush : forall k s s', flush s s' -> plan s = [] -> quiet k s s'.
+Proof. exact flush_quiet. Qed.
+
+Theorem C03_quiet_clock : forall k s t, quiet k s (set_now s t).
+Proof. exact set_now_quiet. Qed.
+
+Theorem C03_quiet_trans : forall k a b c, quiet k a b -> quiet k b c -> quiet k a c.
+Proof. exact quiet_trans. Qed.
+
+Theorem C03_quiet_unknown_request :
+  forall s q k0 k,
+    plan s = [] -> cache_ok s -> nodup_ok s -> fresh_ok s ->
+    q_cookie q = CKey k0 -> L s k0 = None -> key_drawn s k ->
+    quiet k s (fst (fst (start s q))).
+Proof. exact unknown_request_quiet. Qed.
+
+Theorem C03_quiet_nolookup_request :
+  forall s q k,
+    plan s = [] -> cache_ok s -> nodup_ok s -> fresh_ok s ->
+    (forall k0, q_cookie q <> CKey k0) -> key_drawn s k ->
+    quiet k s (fst (fst (start s q))).
+Proof. exact nolookup_request_quiet. Qed.
+
+Theorem C03_quiet_invalid_request :
+  forall s q k0 r0 k,
+    plan s = [] -> cache_ok s -> nodup_ok s -> fresh_ok s ->
+    q_cookie q = CKey k0 -> L s k0 = Some r0 -> start_valid (conf s) r0 q (now s) = false ->
+    k <> k0 -> key_drawn s k ->
+    quiet k s (fst (fst (start s q))).
+Proof. exact invalid_request_quiet. Qed.
+
+Theorem C03_quiet_plain_request :
+  forall s q k0 r0 k,
+    plan s = [] -> cache_ok s -> nodup_ok s ->
+    q_cookie q = CKey k0 -> L s k0 = Some r0 -> r_ref r0 = None ->
+    start_valid (conf s) r0 q (now s) = true ->
+    (c_idexpiry (conf s) <=? since (r_created r0) (now s))%Z = false ->
+    (sat_add (c_idexpiry (conf s)) (c_grace (conf s)) <=? since (r_created r0) (now s))%Z = false ->
+    k <> k0 ->
+    quiet k s (fst (fst (start s q))).
+Proof. exact plain_request_quiet. Qed.
+
 Print Assumptions C03_dead.
 Print Assumptions C03_dead_expiry0.
 Print Assumptions C03_expired_pred.
@@ -142,3 +248,13 @@ Print Assumptions C03_live_kept.
 Print Assumptions C03_compact_is_flush.
 Print Assumptions C03_flush_keeps.
 Print Assumptions C03_live_twice_partial.
+Print Assumptions C03_live_run.
+Print Assumptions C03_live_inv_init.
+Print Assumptions C03_quiet_compact.
+Print Assumptions C03_quiet_flush.
+Print Assumptions C03_quiet_clock.
+Print Assumptions C03_quiet_trans.
+Print Assumptions C03_quiet_unknown_request.
+Print Assumptions C03_quiet_nolookup_request.
+Print Assumptions C03_quiet_invalid_request.
+Print Assumptions C03_quiet_plain_request.
